@@ -414,6 +414,11 @@ NewGraph(s, g, ins, outs, iv, n) ==
         r5 == IF r4.out # "ok" \/ n = 0 THEN r4 ELSE GExtend(r4.s, g, <<n>>)
     IN IF r5.out = "ok" THEN r5 ELSE Rej(s, r5.out)
 
+\* graph.extend(<an iterable that builds k new nodes consuming v and then raises>): the call raises what the iterable
+\* raised; the k nodes exist afterwards (the iterable's doing, not the call's), the graph has adopted none of them
+GExtendGen(s, g, v, k) ==
+  [s |-> FoldLeft(LAMBDA acc, x : NewNode(acc, <<v>>, <<>>, 1, 0).s, s, [x \in 1..k |-> x]), out |-> "iter-raise"]
+
 \* =======================================================================================
 \* Calls: one uniform record shape so that a call is JSON on both sides of the binding
 \* =======================================================================================
@@ -461,6 +466,7 @@ Apply(s, c) ==
     [] c.op = "InitUpdateKeys" -> InitUpdateKeys(s, c.g, c.name, c.v, c.k, c.w)
     [] c.op = "ReplaceNodes" -> ReplaceNodes(s, c.g, c.n, c.vs, c.ws, c.v, c.w)
     [] c.op = "NewGraph" -> NewGraph(s, c.g, c.vs, c.ws, c.v, c.n)
+    [] c.op = "GExtendGen" -> GExtendGen(s, c.g, c.v, c.i)
 
 ApplyAll(s, cs) == FoldLeft(LAMBDA acc, c : Apply(acc, c).s, s, cs)
 Outcomes(s, cs) ==   \* the sequence of [c, out] records of running cs from s
